@@ -5,6 +5,7 @@ import (
 	"encoding/json"
 	"errors"
 	"fmt"
+	"io"
 	"strings"
 
 	"github.com/pentops/j5/j5types/any_j5t"
@@ -33,12 +34,26 @@ func (c *Codec) decodeRoot(jsonData []byte, root j5reflect.Root) error {
 
 	switch schema := root.(type) {
 	case j5reflect.Object:
-		return d2.decodeObject(schema)
+		if err := d2.decodeObject(schema); err != nil {
+			return err
+		}
 	case j5reflect.Oneof:
-		return d2.decodeOneof(schema)
+		if err := d2.decodeOneof(schema); err != nil {
+			return err
+		}
 	default:
 		return fmt.Errorf("unsupported root schema type %T", schema)
 	}
+
+	// the document is the whole input: nothing may follow the root value
+	tok, err := d2.Token()
+	if err == io.EOF {
+		return nil
+	}
+	if err != nil {
+		return err
+	}
+	return unexpectedTokenError(tok, "end of document")
 }
 
 // decoder is an instance for decoding a single message, not reusable.
